@@ -45,8 +45,11 @@ func init() {
 			ruleListUnderLock(c, "C09.R2")
 			c.Rule("C09.R3", "reservation handlers guarded", 6)
 			ruleReservationHandlers(c, "C09.R3")
-			c.Rule("C09.R4", "reload deletes only objects outside every configured pool", 2)
+			c.Rule("C09.R4", "reload deletes only objects outside every configured pool", 3)
 			ruleReloadDeletesOnlyForeign(c, "C09.R4")
+			c.Rule("C09.R8", "objects collected for the cache insert / rollback are exactly those this call created (a colliding reserved object is never touched)", 4)
+			ruleCreateBeforeCache(c, "C09.R8")
+			ruleMultiIPAllOrNothing(c, "C09.R8")
 			c.Rule("C09.R5", "a store Create conflict (IP reserved but not yet seen) is returned, never absorbed", 5)
 			ruleStoreErrorsPropagate(c, "C09.R5")
 			c.Rule("C09.R6", "mutators keep lookup, store write and memory update in one critical section (a concurrent reload cannot interleave)", 12)
